@@ -99,6 +99,38 @@ def branch_cands(code):
     return out
 
 
+def stmt_cands(code):
+    """third operator set: deleted returns, compound assignment -> assignment, shortened iterations, dropped method calls, swapped arguments"""
+    out = []
+    st = code.strip()
+    ind = len(code) - len(code.lstrip())
+    if re.match(r"^return\b.*;$", st):
+        out.append((ind, st, "/* return deleted */"))
+    if st in ("break;", "continue;"):
+        out.append((ind, st, "/* deleted */"))
+    for old, new in ((" += ", " = "), (" -= ", " = "), (" |= ", " = "), (" ^= ", " = ")):
+        for m in re.finditer(re.escape(old), code):
+            out.append((m.start(), old, new))
+    for old in (".iter()", ".iter_mut()", ".into_iter()", ".enumerate()", ".cloned()"):
+        for m in re.finditer(re.escape(old), code):
+            out.append((m.end(), "", ".skip(1)"))
+    # upper bounds of ranges
+    for m in re.finditer(r"\.\.=?([A-Za-z_][A-Za-z0-9_.]*(?:\(\))?)", code):
+        out.append((m.end(), "", " - 1"))
+        out.append((m.end(), "", " + 1"))
+    # dropped method calls with simple arguments
+    for m in re.finditer(r"\.(min|max|saturating_add|saturating_sub|saturating_mul|wrapping_add|wrapping_sub|checked_mul)\(([^()]*)\)", code):
+        out.append((m.start(), m.group(0), ""))
+    for name in (".abs()", ".ceil()", ".floor()", ".rev()", ".sqrt()", ".ln()", ".exp()", ".unwrap_or(0)"):
+        for m in re.finditer(re.escape(name), code):
+            out.append((m.start(), name, ""))
+    # swapped arguments of two-argument calls with simple arguments
+    for m in re.finditer(r"\(([A-Za-z_&][A-Za-z0-9_.&]*(?: as [a-z0-9]+)?), ([A-Za-z_&][A-Za-z0-9_.&]*(?: as [a-z0-9]+)?)\)", code):
+        if m.group(1) != m.group(2):
+            out.append((m.start(), m.group(0), "(%s, %s)" % (m.group(2), m.group(1))))
+    return out
+
+
 def gen():
     os.makedirs(MU, exist_ok=True)
     out = []
@@ -121,6 +153,8 @@ def gen():
             cands = []
             if OPS == 2:
                 cands = branch_cands(code)
+            if OPS == 3:
+                cands = stmt_cands(code)
             for old, news in BINOPS if OPS == 1 else []:
                 for m in re.finditer(re.escape(old), code):
                     for new in news:
